@@ -162,6 +162,8 @@ class Instrument:
         self.uninstall()
 
     def _keep(self, fr):
+        if "result" not in fr and "exception" not in fr:
+            return      # aborted by the wall-clock cut-off of the pipeline (a BaseException): not a frame
         if len(self.frames) < self.cap:
             self.frames.append(fr)
 
